@@ -8,6 +8,7 @@ import (
 	"sort"
 	"time"
 
+	"github.com/metrico/qryn/reader/prof"
 	rservice "github.com/metrico/qryn/reader/service"
 
 	"verif/harness/engines/gen"
@@ -334,6 +335,8 @@ func childMerge(c *run.Ctx, cfg childCfg) {
 				undecide("E-CHSQL: cannot model the profiles table", err.Error())
 				break
 			}
+			seqFG := map[string]*prof.FlameGraph{}
+			var allW []window
 			for _, tn := range tnames {
 				ti := indexOf(tnames, tn)
 				w.typeID = fmt.Sprintf("%s:%s:%s:%s:%s", m0.pd.Ptype[0], ms.fam.Types[ti][0], ms.fam.Types[ti][1], m0.pd.PeriodType[0], m0.pd.PeriodUnit[0])
@@ -379,6 +382,8 @@ func childMerge(c *run.Ctx, cfg childCfg) {
 					continue
 				}
 				c.Floor("merge: sql feed (real service)", 0, 1)
+				seqFG[tn] = fg
+				allW = append(allW, w)
 				lv := levelsOf(fg.Levels)
 				paths, fs, bars := checkFlame(fg.Names, lv, got.rootTotal())
 				c.Event("flame bars checked", bars)
@@ -394,6 +399,23 @@ func childMerge(c *run.Ctx, cfg childCfg) {
 				}
 				if !reflect.DeepEqual(lv, levelsOf(tree.BFS(tn))) || !reflect.DeepEqual(fg.Names, tree.Names) {
 					undecide("replica of getTree and the real MergeStackTraces returned different flame graphs for the same statement", tn)
+				}
+			}
+			// the sample types of one profile type asked for at the same time (two panels of one dashboard): every
+			// caller must get the flame graph of ITS sample type, i.e. what the same request returned on its own
+			if pi == 0 && len(allW) >= 2 && len(allW) == len(tnames) {
+				fgs, errs := feed.serviceConcurrently(allW)
+				for k, tn := range tnames {
+					if errs[k] != nil {
+						undecide("real MergeStackTraces over E-CHSQL failed (concurrent requests)", clip(errs[k].Error(), 200))
+						continue
+					}
+					c.Floor("merge: sample types requested concurrently", 0, 1)
+					want := seqFG[tn]
+					if fgs[k].Total != want.Total || !reflect.DeepEqual(levelsOf(fgs[k].Levels), levelsOf(want.Levels)) || !reflect.DeepEqual(fgs[k].Names, want.Names) {
+						rp.violation("flame/concurrent-request-answered-with-another-tree/service", fmt.Sprintf("type %s (ProfService.MergeStackTraces, %d sample types requested at the same time): total %d and %d levels, the same request on its own: total %d and %d levels (Σ inputs %d)",
+							tn, len(tnames), fgs[k].Total, len(fgs[k].Levels), want.Total, len(want.Levels), refs[tn].rootTotal()), map[string]any{"sample_type": tn, "requested_together": tnames})
+					}
 				}
 			}
 		}
